@@ -2,5 +2,5 @@ SPECIFICATION Spec
 CONSTANTS
   Full = FALSE
   DEV_SmallAngleLinearised = FALSE
-  DEV_EnvironmentNotMoved = FALSE
-INVARIANT Emit
+  DEV_EnvironmentNotMoved = TRUE
+INVARIANT LawImplConforms
